@@ -42,3 +42,13 @@ def run(ctx):
 def replay(ctx, payload):
     print(payload)
     return 0
+
+CLAIM = {'note': "Trusted: Coq kernel + vm_compute; harness reifiers; typing's Union/==/hash semantics as modelled "
+         '(union_mk, py_eqb). Totality and order/multiplicity invariance are checked by correspondence only '
+         'so far.',
+ 'ref': '4/C04',
+ 'technique': 'Coq proof by nested induction over values/types + vm_compute differential correspondence',
+ 'text': 'Coq theorem infer_sound: for every hierarchy, every limit k and every finite collection of values, '
+         'each observed value is a member of the inferred type (both readings of Any); plus '
+         'infer_well_formed. The model (Model/Infer.v) is tied to typing.py by a differential check whose '
+         'verdicts (membership + multiset correspondence) are computed inside Coq.'}
